@@ -139,7 +139,7 @@ fn alphabet(h: &Handler) -> Vec<(String, Object)> {
         ("lit-16".into(), lit(b"0123456789abcdef")),
         ("hex-empty".into(), hexs(b"")),
         ("hex-17-binary".into(), hexs(b"\x00\xff()\\\r\n)(<>[]%/\x80\x7f")),
-        ("lit-33".into(), lit(b"thirty-three bytes of plain text!!")),
+        ("lit-33".into(), lit(b"thirty-three bytes of plain text!")),
         ("array-nested".into(), Object::Array(vec![
             Object::Integer(7), lit(b"sixteen byte str"),
             Object::Array(vec![lit(b"twenty bytes of text"), Object::Dictionary(dict(vec![(b"K", hexs(&pat(18, 3)))]))]),
@@ -492,7 +492,9 @@ fn case_json(c: &Case, obligation: &str) -> Value {
 }
 
 /// decrypt `enc` (a clone) with a password that must be accepted and compare with the original
-fn expect_decrypts(orig: &Document, enc: &Document, enc_id: Option<(u32, u16)>, pw: &str, strict: bool, tag: &str, f: &mut Fails) {
+fn expect_decrypts(h: &Handler, orig: &Document, enc: &Document, enc_id: Option<(u32, u16)>, pw: &str, strict: bool, tag: &str, f: &mut Fails) {
+    // the quantifier names passwords longer than 127 bytes (the truncation limit of revisions 5 and 6) as a class of its own
+    let tag = &if !h.legacy() && pw.len() > 127 { format!("{}-over127", tag) } else { tag.to_string() };
     let mut d = enc.clone();
     match catch(|| d.decrypt(pw)) {
         Err(p) => push(f, "no-panic", format!("{}: decrypt panicked: {}", tag, p)),
@@ -566,8 +568,8 @@ fn check_case(c: &Case, state: Option<&EncryptionState>, formats: &[bool]) -> Fa
     }
     if enc.objects.len() != orig.objects.len() + 1 { push(&mut f, "non-string-unchanged", format!("encrypt changed the number of objects from {} to {}", orig.objects.len(), enc.objects.len())); }
     // 4. in memory: user password, owner password, wrong passwords
-    expect_decrypts(&orig, &enc, enc_id, c.user, true, "mem-user", &mut f);
-    expect_decrypts(&orig, &enc, enc_id, c.owner, true, "mem-owner", &mut f);
+    expect_decrypts(h, &orig, &enc, enc_id, c.user, true, "mem-user", &mut f);
+    expect_decrypts(h, &orig, &enc, enc_id, c.owner, true, "mem-owner", &mut f);
     expect_rejects(h, &enc, c.user, c.owner, "mem", &mut f);
     // 5. through save + load
     if c.doc.reload {
@@ -600,8 +602,8 @@ fn check_case(c: &Case, state: Option<&EncryptionState>, formats: &[bool]) -> Fa
                 push(&mut f, if nl { "reload-stays-encrypted-nonlatin" } else { "reload-stays-encrypted" },
                      format!("neither password is empty (user {:?}, owner {:?}) but the loader decrypted the file without a password", short(c.user), short(c.owner)));
             } else {
-                expect_decrypts(&orig, &loaded, enc_id, c.user, false, "reload-user", &mut f);
-                expect_decrypts(&orig, &loaded, enc_id, c.owner, false, "reload-owner", &mut f);
+                expect_decrypts(h, &orig, &loaded, enc_id, c.user, false, "reload-user", &mut f);
+                expect_decrypts(h, &orig, &loaded, enc_id, c.owner, false, "reload-owner", &mut f);
                 expect_rejects(h, &loaded, c.user, c.owner, tag, &mut f);
             }
         }
@@ -633,21 +635,21 @@ fn run_config(cfg: &Config) -> Vec<CaseOut> {
     // R5/V5 states do not depend on the document: build once (the key-derivation hash is the expensive part)
     let shared = if cfg.h.legacy() { None } else { catch(|| make_state(&cfg.h, &Document::with_version("1.7"), &cfg.user, &cfg.owner)).ok().and_then(|r| r.ok()) };
     let formats: &[bool] = if cfg.both_formats { &[false, true] } else { &[false] };
-    let mut out = Vec::with_capacity(docs.len());
-    for d in &docs {
+    let one = |d: &DocS| -> CaseOut {
         let c = Case { h: &cfg.h, user: &cfg.user, owner: &cfg.owner, doc: d };
         let both = [false, true];
         let fm: &[bool] = if d.label.starts_with("full") { &both } else { formats };
         let fails = check_case(&c, shared.as_ref(), fm);
         let nontrivial = d.objects.iter().any(|(_, o)| has_payload(o));
-        out.push(CaseOut {
+        CaseOut {
             nontrivial,
             fails: fails.into_iter().map(|(ob, det)| { let j = case_json(&c, &ob); (ob, det, j) }).collect(),
             sample: format!("{} user={:?} owner={:?} doc={}", cfg.h.describe(), short(&cfg.user), short(&cfg.owner), d.label),
             group: format!("{:?} StmF={} StrF={} em={} user={:?} owner={:?}", cfg.h.kind, cfg.h.stm, cfg.h.strf, cfg.h.em, short(&cfg.user), short(&cfg.owner)),
-        });
-    }
-    out
+        }
+    };
+    // long configurations (V5, pairs) are split further so that no single task dominates the run; order is preserved
+    if cfg.h.kind == Kind::V5 || docs.len() > 200 { docs.par_iter().map(one).collect() } else { docs.iter().map(one).collect() }
 }
 
 fn has_payload(o: &Object) -> bool {
@@ -691,16 +693,22 @@ fn configs(thorough: bool) -> Vec<Config> {
     out
 }
 
-const BOUND: &str = "family A = handlers x permission sets x password pairs x documents, fully enumerated. handlers: V1; V2 with every key length 40,48..128; \
-V4 with CF {FRc4:V2, FAes:AESV2, FId:Identity}, StmF x StrF over {FRc4,FAes,FId,/Identity (not in CF)} x EncryptMetadata {t,f}; R5 and V5 (AES-256, CF {StdCF:AESV3, FId:Identity}) with \
-StmF x StrF over {StdCF,FId} (thorough: + /Identity) x EncryptMetadata {t,f} x file key {pattern} (thorough: + all-zero). permission sets {all, print+copy} (thorough: + none, modify+annotate+fill+assemble). \
-12 (user, owner) password pairs: both empty, empty user, empty owner, ASCII distinct, owner == user, Latin-1, Cyrillic, CJK user, 40-byte pair, pair sharing a 32-byte prefix, 130-byte pair, pair sharing a 127-byte prefix. \
-documents: each object of a 26..30-object alphabet alone (empty/5/15/16/17/33-byte literal and hex strings, strings nested in arrays and dictionaries to depth 3, empty/5/15/16/300-byte binary streams, Metadata stream (also empty), \
-stream with a string in its dictionary, /Type /Metadata plain dictionaries, XRef-typed stream, streams with /Filter /Crypt and DecodeParms /Name = each CF name / missing / unknown / no DecodeParms, name and [array] form) at id 7 3 \
-(thorough: ids 1 0, 7 3, 300 65535), one string at id 16777221 1 (memory only), and the document of the whole alphabet at sparse ids with generations 0/2 (R5/V5: also without /ID). \
-Each case: encrypt, model check of every ciphertext, decrypt in memory with user / owner / 3-5 wrong passwords, save (xref table; whole-alphabet document and thorough: also xref stream) + load + the same three decrypts or the auto-decrypt expectation. \
-family B (thorough only) = handlers of the quick tier x (user, owner) x all permissions x all ordered pairs of alphabet objects as a two-object document. \
-Not enumerated: ObjStm-typed streams, documents whose max_id is below an existing id, passwords that SASLprep prohibits";
+const BOUND: &str = "cases = (security handler, permission set, (user, owner) password pair, document); every listed set is enumerated completely. \
+HANDLERS: V1; V2 with every key length 40,48..128; V4 with CF {FRc4:V2, FAes:AESV2, FId:Identity} and StmF x StrF over {FRc4,FAes,FId,/Identity (not in CF)} x EncryptMetadata {t,f}; \
+R5 and V5 (AES-256, CF {StdCF:AESV3, FId:Identity}) with StmF x StrF over {StdCF,FId} (thorough: + /Identity) x EncryptMetadata {t,f}, fixed 32-byte file key (thorough: + the all-zero key with StdCF/StdCF). \
+PERMISSIONS: {all, print+copy} (thorough: + none, modify+annotate+fill+assemble). \
+PASSWORDS: 12 pairs: both empty, empty user, empty owner, ASCII distinct, owner == user, Latin-1, Cyrillic, CJK user, 40-byte pair, pair sharing a 32-byte prefix, 130-byte pair, 128-byte pair sharing a 127-byte prefix. \
+DOCUMENTS: each object of an alphabet of 25 (V1,V2), 27 (R5,V5) or 29 (V4) objects alone at id 7 3 (thorough, not V5: at each of 1 0, 7 3, 300 65535): empty/5/15/16/17/33-byte literal and hex strings, \
+strings nested in arrays and dictionaries to depth 3 beside names, numbers, null and (dangling) references, empty/5/15/16/300-byte binary streams, Metadata stream (also empty), stream with a string in its dictionary, \
+plain dictionaries of /Type /Metadata (top level and nested), XRef-typed stream, streams with /Filter /Crypt (name and array form) and DecodeParms /Name = each CF name (also with empty content) / missing / unknown / no DecodeParms; \
+one string at id 16777221 1 (memory only); the document holding the whole alphabet at sparse ids with generations 0 and 2 (R5/V5: also without /ID). \
+QUICK = handlers x permissions (V5: all only) x passwords x {33-byte string alone, whole-alphabet document} (V5: string only)  UNION  handlers x {all} x {(user, owner)} x all documents. \
+THOROUGH = handlers x permissions x passwords x all documents (V5, whose password hash costs ~1.5 ms: x {string alone, whole-alphabet document}, plus {all} x {(user, owner)} x all documents)  UNION  \
+quick-tier handlers (V5: StdCF/StdCF/EncryptMetadata only) x {all} x {(user, owner)} x all ordered pairs of alphabet objects as a two-object document (ids 2 0 and 9 1). \
+EACH CASE: EncryptionState::try_from, encrypt, model check of every string/stream ciphertext and of the encryption dictionary, in memory decrypt with the user password, the owner password and 3-5 wrong passwords \
+(a fixed ASCII word, a Cyrillic word, the empty string if neither password is empty, each password with one character appended or, if longer than 20 characters, its first character replaced), \
+save (xref table; whole-alphabet document and thorough except V5: also xref stream) + load_mem + the same decrypts, or the auto-decrypt expectation when the user or owner password is empty. \
+NOT ENUMERATED: ObjStm-typed streams, documents whose max_id is below an existing id, passwords that SASLprep prohibits, documents without /ID under V1-V4 (the key derivation needs it), incremental saves";
 
 pub fn run(thorough: bool) -> Report {
     let mut rep = Report::new(BOUND, true);
